@@ -895,6 +895,20 @@ impl<'a> Ctx<'a> {
                     let no = if self.rng.chance(1, 2) { self.nullable(depth) } else { self.atom_simple() };
                     return Node::CondExpr(Box::new(c), Box::new(yes), Box::new(no));
                 }
+                9 if self.cfg.allow_look => {
+                    // a consuming atom followed by a look-behind over what was just consumed (often
+                    // a multi-byte character): the body is not nullable, so the loop is compiled
+                    // without a guard and relies on every round ending to the right of its start
+                    let c = *self.rng.pick(&['a', 'é', 'é', '日', '😀']);
+                    let atom = if self.rng.chance(1, 2) {
+                        Node::Lit(c)
+                    } else {
+                        Node::Class(*self.rng.pick(&["\\w", "(?s:.)", "[^a]", "\\S"]))
+                    };
+                    let behind = if self.rng.chance(2, 3) { Node::Lit(c) } else { self.fixed_width(0) };
+                    let lb = Node::Look { child: Box::new(behind), ahead: false, neg: self.rng.chance(1, 6) };
+                    return Node::Concat(vec![atom, lb]);
+                }
                 5 => return self.nullable(depth),
                 6 => return self.group_around(|c| c.nullable(depth)),
                 7 if self.cfg.allow_atomic => return Node::Atomic(Box::new(self.nullable(depth))),
@@ -1008,7 +1022,7 @@ pub fn gen_text(rng: &mut Rng, max_len: usize) -> String {
     let mut s = String::new();
     // sometimes a run of one letter, which is what makes quantifiers backtrack
     if rng.chance(1, 4) {
-        let c = *rng.pick(&['a', 'b']);
+        let c = *rng.pick(&['a', 'a', 'b', 'b', 'é', '日']);
         for _ in 0..n {
             s.push(c);
         }
@@ -1017,8 +1031,17 @@ pub fn gen_text(rng: &mut Rng, max_len: usize) -> String {
         }
         return s;
     }
+    // sometimes a stutter: characters tend to repeat the one before (short runs of any character,
+    // multi-byte ones included)
+    let stutter = rng.chance(1, 5);
+    let mut prev: Option<char> = None;
     for _ in 0..n {
-        s.push(*rng.pick(TEXT_ALPHA));
+        let c = match prev {
+            Some(p) if stutter && rng.chance(1, 2) => p,
+            _ => *rng.pick(TEXT_ALPHA),
+        };
+        s.push(c);
+        prev = Some(c);
     }
     s
 }
